@@ -277,8 +277,9 @@ class Skedder(object):
                                     aborted.append((tasker, stamp, period))
                                     console.profuse("     Tasker Self Aborted: {0}\n".format(tasker.name))
                                 else:
+                                    # round to nanoseconds so sums of decimal periods compare exactly
                                     ready.append((tasker,
-                                                  retime + tasker.period,
+                                                  round(retime + tasker.period, 9),
                                                   tasker.period))  # append allows for period change
 
                             except StopIteration: #generator returned instead of yielded
@@ -308,7 +309,7 @@ class Skedder(object):
                             time.sleep(self.timer.remaining)
                         self.timer.repeat()
 
-                    self.stamp += self.period
+                    self.stamp = round(self.stamp + self.period, 9)  # nanoseconds
                     stamp = self.stamp
                     for house in self.houses:
                         house.store.changeStamp(stamp)
